@@ -23,7 +23,7 @@ PROPS = {
         "trusted_base": [MODEL_FILES],
     },
     "C04": {
-        "suites": PARSE_GROUPS + ",C13,C17,LOOKUPS",
+        "suites": PARSE_GROUPS + ",C13,C17,LOOKUPS,MARGS",
         "assumptions": COMMON_ASSUME + [
             "running time is enforced by a per-call deadline in the harness (2 s + 1 ms per input character), not proved",
         ],
@@ -55,7 +55,7 @@ PROPS = {
         "trusted_base": [MODEL_FILES, "translator /verif/extract and the exhaustive sweep `harness observe` (Gen/*.lean)"],
     },
     "C10": {
-        "suites": "KAC,LOOKUPS",
+        "suites": "KAC,LOOKUPS,CTWIN",
         "gen": True,
         "assumptions": COMMON_ASSUME,
         "trusted_base": ["model files: lean/I2P/Tables.lean, Kac.lean", "translator /verif/extract and the exhaustive sweep `harness observe` (Gen/*.lean)"],
@@ -103,7 +103,7 @@ PROPS = {
         "trusted_base": ["model files: lean/I2P/NetAddr.lean, lean/I2P/RouterAddrAcc.lean, lean/I2P/Mapping.lean, lean/I2P/Data.lean"],
     },
     "C19": {
-        "suites": PARSE_GROUPS + ",C13,C17,BUILDER",
+        "suites": PARSE_GROUPS + ",C13,C17,BUILDER,CTWIN",
         "assumptions": COMMON_ASSUME,
         "trusted_base": [MODEL_FILES],
     },
